@@ -8,7 +8,7 @@ pub(crate) fn div_rem_in_place(
 ) -> bool
 /*@
     requires
-        old(lhs)@.len() > rhs@.len() + div::THRESHOLD_SIMPLE, rhs@.len() > div::THRESHOLD_SIMPLE,
+        old(lhs)@.len() > rhs@.len() + 32, rhs@.len() > 32,     // div::THRESHOLD_SIMPLE (the real constant is in the body assertions)
         old(lhs)@.len() <= usize::MAX, div_prepared(rhs@, fast_div_rhs_top),
         2 * rhs@.len() <= usize::MAX,
         3 * rhs@.len() + 4 <= SignedWord::MAX,
@@ -26,7 +26,7 @@ pub(crate) fn div_rem_in_place(
     /*@ let ghost s0 = memory.start(); let ghost e0 = memory.end(); let ghost len = lhs@.len(); @*/
     while m >= 2 * n
     /*@
-        invariant n == rhs@.len(), n > div::THRESHOLD_SIMPLE, n <= m <= len, lhs@.len() == len, len <= usize::MAX,
+        invariant n == rhs@.len(), n > 32, n <= m <= len, lhs@.len() == len, len <= usize::MAX,
             2 * n <= usize::MAX, 3 * n + 4 <= SignedWord::MAX,
             m == len || len >= 2 * n,
             div_prepared(rhs@, fast_div_rhs_top),
